@@ -392,6 +392,14 @@ def extras(chk, steps):
             # powers with a real exponent (positive, zero, negative, fractional) on every kind of support, zero at an endpoint included
             for c in (2, 3, 0.5, 0, -1, -2, -0.5):
                 ops.append((f"pow-number({c})", (lambda c=c: real_pipeline(lambda: x ** c) if "zero" in kind else x ** c)))
+            # results whose exact image overflows a double at one step / at several steps (a value with an infinite bound has no moments: the
+            # operation has to raise), next to the same operations just below the overflow threshold
+            for tag, top in (("1", 709.79), ("N", rng.choice([709.9, 712.0, 730.0]))):     # one step / several steps beyond the threshold
+                ramp = [700 + (top - 700) * k / (steps - 1) for k in range(steps)]
+                big = mk((ramp, ramp)) if kind in ("precise", "pos", "precise_zero_lo") else mk(([700.0] * steps, ramp))
+                ops += [(f"overflow{tag}-exp", lambda big=big: real_pipeline(lambda: big.exp())), (f"overflow{tag}-np.exp", lambda big=big: real_pipeline(lambda: np.exp(big))),
+                        (f"overflow{tag}-mul", lambda big=big: real_pipeline(lambda: (big - 699.0) * 1.7e307)), (f"overflow{tag}-pow", lambda big=big: real_pipeline(lambda: big ** 108)),
+                        (f"near-overflow{tag}-exp", lambda big=big: real_pipeline(lambda: (big - 5.0).exp()))]
             # the aggregation functions with a p-box listed first, and a mixture
             import pyuncertainnumber as pun
             ops += [("envelope()", lambda: pun.envelope(x, yp)), ("envelope()-3", lambda: pun.envelope(xp, x, yp)), ("imposition()", lambda: pun.imposition(xp, mk(([v - 0.25 for v in Xp[0]], [1.0 + v for v in Xp[1]])))),
